@@ -1800,6 +1800,8 @@ _generations_tuple(PyObject* ro)
 
     l = PyTuple_GET_SIZE(ro);
     generations = PyTuple_New(l);
+    if (generations == NULL)
+        return NULL;
     for (i = 0; i < l; i++) {
         PyObject* generation;
 
@@ -1816,7 +1818,7 @@ _generations_tuple(PyObject* ro)
 static PyObject*
 verify_changed(VB* self, PyObject* ignored)
 {
-    PyObject *t, *ro;
+    PyObject *t, *ro, *generations;
 
     VB_clear(self);
 
@@ -1839,13 +1841,20 @@ verify_changed(VB* self, PyObject* ignored)
     if (ro == NULL)
         return NULL;
 
-    self->_verify_generations = _generations_tuple(ro);
-    if (self->_verify_generations == NULL) {
+    generations = _generations_tuple(ro);
+    if (generations == NULL) {
         Py_DECREF(ro);
         return NULL;
     }
 
+    /* Reading the generations ran arbitrary code, which may have called
+       changed() again and stored a snapshot of its own: release it. */
+    t = self->_verify_generations;
+    self->_verify_generations = generations;
+    Py_XDECREF(t);
+    t = self->_verify_ro;
     self->_verify_ro = ro;
+    Py_XDECREF(t);
 
     Py_INCREF(Py_None);
     return Py_None;
@@ -1863,15 +1872,25 @@ _verify(VB* self)
     PyObject* changed_result;
 
     if (self->_verify_ro != NULL && self->_verify_generations != NULL) {
-        PyObject* generations;
+        PyObject *generations, *ro, *verify_generations;
         int changed;
 
-        generations = _generations_tuple(self->_verify_ro);
-        if (generations == NULL)
+        /* Reading the generations runs arbitrary code, which may call
+           changed() and release the snapshot: own it meanwhile. */
+        ro = self->_verify_ro;
+        verify_generations = self->_verify_generations;
+        Py_INCREF(ro);
+        Py_INCREF(verify_generations);
+        generations = _generations_tuple(ro);
+        Py_DECREF(ro);
+        if (generations == NULL) {
+            Py_DECREF(verify_generations);
             return -1;
+        }
 
-        changed = PyObject_RichCompareBool(
-          self->_verify_generations, generations, Py_NE);
+        changed =
+          PyObject_RichCompareBool(verify_generations, generations, Py_NE);
+        Py_DECREF(verify_generations);
         Py_DECREF(generations);
         if (changed == -1)
             return -1;
